@@ -135,7 +135,7 @@ def mkfrags(n):
     """Random fragmentation of n bytes: list of (size, sleep)."""
     style = rng.randrange(4)
     fr, pos = [], 0
-    while pos < n and len(fr) < 400:
+    while pos < n and len(fr) < (120 if ck.quick else 400):
         if style == 0:
             f = rng.choice([1, 1, 2, 3, 4, 5])
         elif style == 1:
@@ -356,7 +356,7 @@ def one_copy_case(job):
 
 
 jobs = []
-pseeds = [ck.seed * 100 + k for k in range(2 if ck.quick else 6)]
+pseeds = [ck.seed * 100 + k for k in range(1 if ck.quick else 6)]
 for tag, d in inputs:
     big = len(d) > 3 * GRANUL
     for mode in ('file', 'operand', 'pipe'):
@@ -365,7 +365,8 @@ for tag, d in inputs:
         for ps in (pseeds[:1] if (ck.quick and big) else pseeds):
             jobs.append((tag, d, mode, ps, False, True, fr()))
     jobs.append((tag, d, 'pipe', pseeds[0], True, True, mkfrags(len(d))))
-    jobs.append((tag, d, 'file', None, True, False, None))
+    if not ck.quick:
+        jobs.append((tag, d, 'file', None, True, False, None))
 ck.log('%d copy inputs, %d header inputs, %d copy runs' % (
     len(inputs), len(hdr_inputs), len(jobs)))
 
